@@ -8,7 +8,10 @@
 
      est(c)                          -> CtrlEstablish(c)     (again: the next incarnation of c)
      call(o, d, c, x)                -> Call(o, d, c, "none"); x = "result": the harness' peer is
-                                        willing and the link is fresh - the operation has to complete
+                                        willing and the link is fresh - the operation has to complete.
+                                        o is an API call of the harness OR a task the stack started for
+                                        connection c on stack d (a pairing delegate's prompt: the call is
+                                        logged when the delegate is entered, the ret when it is left)
      cut(kind = "disc", d, c)        -> RequestDisconnect(d, c)
      cut(kind = "loss", d)           -> TransportLoss(d)     (Host.on_transport_lost() called directly,
                                         or a real transport source told that the transport died)
